@@ -238,7 +238,13 @@ fn main() {
   for lang in langs {
     let la = atoms_for(lang).unwrap();
     // depth <= 1 rules on L1 trees, depth-2 rules on L2 trees
-    let (l1, l2) = if args.thorough() { (5, 4) } else { (4, 3) };
+    let (l1, l2) = if !args.thorough() {
+      (4, 3)
+    } else if matches!(lang, "javascript" | "python" | "rust" | "c") {
+      (4, 4)
+    } else {
+      (4, 3)
+    };
     let (trees1, n1) = build_trees(lang, l1, la.fields);
     let (trees2, n2) = build_trees(lang, l2, la.fields);
     for t in &trees1 {
